@@ -378,6 +378,14 @@ def check_helpers(case, ctx):
     A3, B3 = Fa + [F(0)] * (3 - len(a)), Fb + [F(0)] * (3 - len(b))
     want = [A3[1] * B3[2] - A3[2] * B3[1], A3[2] * B3[0] - A3[0] * B3[2], A3[0] * B3[1] - A3[1] * B3[0]]
     ctx.check(len(cr) == 3 and all(F(x) == y for x, y in zip(cr, want)), "vector_cross", "vector_cross(%r, %r) = %r, expected %r" % (a, b, cr, ref.fl(want)))
+    if len(a) == 3:
+        # each operand may have 2 or 3 elements (a 2-element vector lies in the xy-plane)
+        cr2 = linalg.vector_cross(a, b[:2])
+        want2 = [-A3[2] * B3[1], A3[2] * B3[0], A3[0] * B3[1] - A3[1] * B3[0]]
+        ctx.check(len(cr2) == 3 and all(F(x) == y for x, y in zip(cr2, want2)), "vector_cross", "vector_cross(%r, %r) = %r, expected %r" % (a, b[:2], cr2, ref.fl(want2)))
+        cr3 = linalg.vector_cross(a[:2], b)
+        want3 = [A3[1] * B3[2], -A3[0] * B3[2], A3[0] * B3[1] - A3[1] * B3[0]]
+        ctx.check(len(cr3) == 3 and all(F(x) == y for x, y in zip(cr3, want3)), "vector_cross", "vector_cross(%r, %r) = %r, expected %r" % (a[:2], b, cr3, ref.fl(want3)))
     mag = linalg.vector_magnitude(a)
     ctx.check(abs(mag - ref.fsqrt(sum(x * x for x in Fa))) <= 1e-12 * (unit + mag), "vector_magnitude", "vector_magnitude(%r) = %r" % (a, mag))
     if any(a):
